@@ -199,6 +199,20 @@ reg(Spec("C13", "c13_dma.cpp", needs=("shim",),
                       "at most one external side per transfer (a DMA channel is bound to one AHBM channel with one direction flag)",
                       "'exactly once' for the interrupt is observable only as 'pending after completion, not pending before' (the ICU bit does not count)"]))
 
+reg(Spec("C11", "c11_memviews.cpp", needs=("shim", "optable"),
+         cases={"quick": 2500, "thorough": 40000},
+         rule="rapidcheck-generated histories (<=24 steps) on a real Teakra instance (own memory or caller-supplied buffer): each step "
+              "picks a writer among 12 paths (raw bytes, ProgramWrite, DataWrite with/without bypass, DataWriteA32, guest stores "
+              "through [Rn], [page:imm8], [imm16], [r7+imm16], [r7+imm7s], push, movd), an address biased to space and window edges, "
+              "a bank (MIU_ZPAGE) and an MMIO window base (0x8000, 0, 0xF800, 0xFFFF, 0xFC00, unaligned, uniform); then every "
+              "applicable reader among 12 paths must return the byte-array model's value and the whole 512 KiB array must equal "
+              "the model; MMIO clause on 11 plain registers: DSP-path access reaches the register, leaves the memory underneath, "
+              "bypass does the opposite, guest load sees the register. Non-trivial = non-zero value written or MMIO clause "
+              "exercised; distinct by hash of the encoded history.",
+         assumptions=["page mode 0 (the property's default paging mode); z_page in {0,1}; the MMIO clause is exercised with z_page = 0 (else ToMMIO asserts)",
+                      "A32 accessors take a 17-bit data address (upper bits ignored, as documented by their mask)",
+                      "eight scratch program words at 0x3FF00 hold the guest instruction under execution"]))
+
 # Properties not (yet) claimed. Kept current by hand; every id in properties.jsonl is either in SPECS or here.
 _PENDING = "check not built yet in this round; planned with property-based testing per DESIGN.md"
 NOT_APPLICABLE = [{"property_id": "C%02d" % i, "reason": _PENDING} for i in range(1, 21) if "C%02d" % i not in SPECS]
